@@ -29,7 +29,7 @@ import (
 func init() {
 	core.RegisterMeta("C25", core.Meta{
 		Rule: "end-to-end: every negotiable (version, suite) cell of the zcrypto server table + TLS 1.3 suites, pairs zcrypto<->zcrypto and zcrypto<->Go crypto/tls, " +
-			"both directions at once, write-size sequences x read segmentation x post-handshake record faults (flip per byte class, set header fields, truncate, drop, dup, swap, replay, insert, garbage, close); " +
+			"both directions at once, write-size sequences x read segmentation x TLS 1.3 mid-stream key updates (driver hook) x post-handshake record faults (flip per byte class, set header fields, truncate, drop, dup, swap, replay, insert, garbage, close); " +
 			"non-trivial = handshake reached the cell's version and suite and (clean plan: both streams delivered completely and equal | fault plan: the faulted record was reached on the wire); distinct by (pair, cell, plan). " +
 			"record level (hook zz_verif_record.go): every implemented suite x version, zcrypto encrypt/decrypt against an independent reference in both directions, " +
 			"single-bit flips (exhaustive for short records), sequence number +-1, CBC padding matrix, extractPadding against a reference; non-trivial = (cell, payload size, test class)",
@@ -96,18 +96,19 @@ type faultSpec struct {
 }
 
 type e2ePlan struct {
-	Pair     string // ZZ | ZG | GZ
-	Cell     string
-	Idx      int
-	DynOff   bool
-	BeastOff bool
-	Capacity int
-	WritesAB []int
-	WritesBA []int
-	SegAB    segSpec // how the server's transport reads are segmented
-	SegBA    segSpec
-	ReadSeed uint64
-	Faults   []faultSpec
+	Pair      string // ZZ | ZG | GZ
+	Cell      string
+	Idx       int
+	DynOff    bool
+	BeastOff  bool
+	KeyUpdate int // TLS 1.3, zcrypto writers: 0 none, 1 KeyUpdate(update_not_requested) between writes, 2 also update_requested (the peer's reader answers)
+	Capacity  int
+	WritesAB  []int
+	WritesBA  []int
+	SegAB     segSpec // how the server's transport reads are segmented
+	SegBA     segSpec
+	ReadSeed  uint64
+	Faults    []faultSpec
 }
 
 func (p *e2ePlan) id() string { return fmt.Sprintf("e2e/%s/%s/%d", p.Pair, p.Cell, p.Idx) }
@@ -317,6 +318,12 @@ func genPlan(seed int64, pair string, cl cell, idx int, clean bool) *e2ePlan {
 			p.Capacity = 0
 		}
 	}
+	if cl.Version == vTLS13 {
+		p.KeyUpdate = rng.IntN(3)
+		if p.KeyUpdate == 2 {
+			p.Capacity = 0 // the answer is written from inside Read: needs a pipe that never blocks the peer's writer for good
+		}
+	}
 	return p
 }
 
@@ -397,15 +404,16 @@ type appEndpoint interface {
 }
 
 type dirResult struct {
-	sent      []byte
-	written   int // bytes of Write calls that returned success
-	writeErr  error
-	closeErr  error
-	got       []byte
-	readErr   error
-	reads     int
-	panicked  *core.PanicInfo
-	writeEnds []int // cumulative end offset of each Write call
+	sent       []byte
+	written    int // bytes of Write calls that returned success
+	writeErr   error
+	closeErr   error
+	got        []byte
+	readErr    error
+	reads      int
+	panicked   *core.PanicInfo
+	writeEnds  []int // cumulative end offset of each Write call
+	keyUpdates int
 }
 
 // plaintextLen returns the exact plaintext length of an application data record, or (-1, lowerBound) for CBC.
@@ -539,6 +547,14 @@ func runE2E(c *core.Ctx, cl cell, p *e2ePlan) {
 		res.panicked = core.Guard(func() {
 			off := 0
 			for i, n := range sizes {
+				if zc, ok := ep.(*ztls.Conn); ok && p.KeyUpdate > 0 && splitmix64(seed^uint64(i)*31+uint64(len(sizes)))%3 == 0 {
+					// mid-stream key update (driver hook); its record is not attributed to a Write call
+					if err := zc.VerifSendKeyUpdate(p.KeyUpdate == 2 && i%2 == 0); err != nil {
+						res.writeErr = fmt.Errorf("key update: %w", err)
+						break
+					}
+					res.keyUpdates++
+				}
 				tr.setWrite(i)
 				k, err := ep.Write(res.sent[off : off+n])
 				tr.setWrite(-1)
@@ -757,11 +773,12 @@ func runE2E(c *core.Ctx, cl cell, p *e2ePlan) {
 				}
 			}
 			c.Count("records_observed", len(d.tr.recs)-d.base)
-			if allExact && len(p.Faults) == 0 && d.res.writeErr == nil && total != d.res.written {
+			if allExact && len(p.Faults) == 0 && p.KeyUpdate != 2 && d.res.writeErr == nil && total != d.res.written {
 				ok = false
 				c.Violation(fmt.Sprintf("record-framing-sum:%s:%s", versionName(cl.Version), cc), fmt.Sprintf("application data records carry %d plaintext bytes, Write calls accepted %d", total, d.res.written), id, p)
 			}
 		}
+		c.Count("key_updates_sent", d.res.keyUpdates)
 		c.Count("bytes_delivered", len(d.res.got))
 		c.Count("read_calls", d.res.reads)
 	}
